@@ -166,6 +166,14 @@ def stream_results(specs, deadline, workers):
 
 
 # ------------------------------------------------------------------ judging one pipeline result
+def report(run, obj, signature, cap=2):
+    """at most `cap` VIOLATION lines per signature; the rest is tallied"""
+    seen = run.cov.setdefault("failing_inputs_by_signature", {})
+    seen[signature] = seen.get(signature, 0) + 1
+    if seen[signature] <= cap:
+        run.violation(obj, signature=signature)
+
+
 class Acc:
     def __init__(self):
         self.mismatch = []          # (spec, mismatch) : real call is not a transition of the skeleton
@@ -188,9 +196,9 @@ def judge_result(run, r, acc, driver_requests, owners):
         sig = exc_signature(exc)
         run.tally("pipeline_exception", sig)
         acc.failing += 1
-        run.violation({"kind": "failing-input", "what": "the pipeline raised in stage " + exc["stage"],
+        report(run, {"kind": "failing-input", "what": "the pipeline raised in stage " + exc["stage"],
                        "replay": "pipeline", "spec": key, "stage": exc["stage"], "exception": exc["type"],
-                       "message": exc["msg"], "traceback": exc["traceback"]}, signature=sig)
+                       "message": exc["msg"], "traceback": exc["traceback"]}, sig)
     for st in STAGES:
         if st in r["stages"]:
             run.tally("stages_completed", st)
@@ -224,13 +232,27 @@ def judge_result(run, r, acc, driver_requests, owners):
         run.tally("skeleton_mismatch", kind)
     if pl["validated"] != pl["calls"] - pl.get("rootless", 0) and not pl["mismatches"]:
         acc.mismatch.append((key, {"kind": "unmatched-calls", "calls": pl["calls"], "validated": pl["validated"]}))
-    # (d) specification side on the real call tree: raised-counter nesting within the bound
+    # (d) specification side on the real call tree: every recursive call raises the counter …
+    if pl["norise_count"]:
+        acc.failing += 1
+        run.tally("norise_sites", pl["norise"][0]["site"][0])
+        report(run, {"kind": "failing-input", "what": "a dispatched generator enters a recursive generate_expr call "
+                       "without raising self.depth above the depth of the enclosing call, at a site that is not one of "
+                       "the listed same-depth sites (receiver of a call / function reference, assignment value, array "
+                       "elements): the nesting bound rests on this", "replay": "pipeline", "spec": key,
+                       "calls": pl["norise"], "count": pl["norise_count"]}, "generator:recursive-call-without-depth-increase:" + pl["norise"][0]["site"][0])
+    if pl["uncut_count"]:
+        acc.failing += 1
+        report(run, {"kind": "failing-input", "what": "a leaf generator recurses under a raised counter above "
+                     "2*max_depth without cutting to the bottom constant", "replay": "pipeline", "spec": key,
+                     "calls": pl["uncut"], "count": pl["uncut_count"]},
+               "generator:leaf-generator-recursion-not-cut:" + pl["uncut"][0]["site"][0])
+    # … and the raised-counter nesting stays within the bound
     if pl["max_wdepth"] > spec_bound(m):
         acc.failing += 1
-        run.violation({"kind": "failing-input", "what": "raised-counter nesting of the real generate_expr call "
+        report(run, {"kind": "failing-input", "what": "raised-counter nesting of the real generate_expr call "
                        "tree exceeds 2*max_depth+8", "replay": "pipeline", "spec": key,
-                       "observed": pl["max_wdepth"], "bound": spec_bound(m), "over": pl["over"]},
-                      signature="generator:nesting-above-bound:calltree")
+                       "observed": pl["max_wdepth"], "bound": spec_bound(m), "over": pl["over"]}, "generator:nesting-above-bound:calltree")
     # erasure search
     for e in pl["erasure"]:
         if not e.get("complete", True):
@@ -244,16 +266,14 @@ def judge_result(run, r, acc, driver_requests, owners):
             run.tally("erasure", "max_combinations-cut-reached")
         if e["tests"] > erasure_bound(s["n0"], s["n"], mc):
             acc.failing += 1
-            run.violation({"kind": "failing-input", "what": "feasibility tests of one function exceed "
+            report(run, {"kind": "failing-input", "what": "feasibility tests of one function exceed "
                            "n0 + min(2^n - 1, max_combinations + 1)", "replay": "pipeline", "spec": key,
-                           "erasure": {k: e[k] for k in ("tests", "summary", "max_combinations")}},
-                          signature="erasure:tests-above-bound")
+                           "erasure": {k: e[k] for k in ("tests", "summary", "max_combinations")}}, "erasure:tests-above-bound")
         if not s["sizes_descend"] or (s["first_size"] is not None and s["first_size"] != s["n"]):
             acc.failing += 1
-            run.violation({"kind": "failing-input", "what": "the erasure search does not walk the combinations "
+            report(run, {"kind": "failing-input", "what": "the erasure search does not walk the combinations "
                            "from the full set downwards", "replay": "pipeline", "spec": key,
-                           "erasure": {k: e[k] for k in ("tests", "summary", "max_combinations")}},
-                          signature="erasure:walk-order")
+                           "erasure": {k: e[k] for k in ("tests", "summary", "max_combinations")}}, "erasure:walk-order")
         driver_requests.append({"op": "depth.erasure", "n0": s["n0"], "n": s["n"], "maxComb": mc, "first": s["first"]})
         owners.append(("erasure", key, e))
     # nesting of the exported program
@@ -290,10 +310,9 @@ def judge_driver(run, acc, driver_requests, owners):
             if top > spec_bound(m):
                 acc.failing += 1
                 i = (ds + info["ref"]).index(top) % max(1, info["ndecls"])
-                run.violation({"kind": "failing-input", "what": "expression nesting of a generated declaration "
+                report(run, {"kind": "failing-input", "what": "expression nesting of a generated declaration "
                                "exceeds 2*max_depth+8", "replay": "pipeline", "spec": key, "declaration_index": i,
-                               "observed": top, "bound": spec_bound(m)},
-                              signature="generator:nesting-above-bound:program")
+                               "observed": top, "bound": spec_bound(m)}, "generator:nesting-above-bound:program")
             if max(info["ref"] + [0]) > info["wdepth"]:
                 acc.tree_diff.append((key, max(info["ref"]), info["wdepth"]))
 
@@ -433,7 +452,7 @@ def hbo_stream(run, quick):
 
 
 # ------------------------------------------------------------------ the check
-def preload():
+def preload(same_depth):
     """import what the workers need before forking (copy-on-write instead of 14 imports)"""
     pipeline.setup()
     import src.generators.generator  # noqa: F401
@@ -442,7 +461,7 @@ def preload():
     import export_ast  # noqa: F401
     import plugin_depth
     pipeline.translators()
-    plugin_depth.table()
+    plugin_depth.table()["same"] = {tuple(p) for p in same_depth}
 
 
 def table_summary(run, sk):
@@ -455,8 +474,16 @@ def table_summary(run, sk):
         "dispatch": [[c, [a for a, _ in l]] for c, l in sk["dispatch"]]}
 
 
-def run_pipeline(run, specs, budget_s, acc):
-    preload()
+def bound_answers(run):
+    b = common.run_driver([{"op": "depth.bound", "maxDepth": m, "d": 0} for m in (3, 6, 8, 10)])
+    for a in b:
+        if "error" in a:
+            raise common.HarnessError("driver: " + a["error"])
+    return b
+
+
+def run_pipeline(run, specs, budget_s, acc, same_depth):
+    preload(same_depth)
     workers = min(14, max(2, (os.cpu_count() or 4) - 2))
     done = 0
     rqs, owners = [], []
@@ -486,7 +513,7 @@ def check(run):
                        "generate_expr call of the run is matched to a site of the regenerated skeleton; non-trivial = the "
                        "run completed all stages and made at least one generate_expr call; plus has_bound_of calls and "
                        "the power-set walks n = 0..7")
-    b = common.run_driver([{"op": "depth.bound", "maxDepth": m, "d": 0} for m in (3, 6, 8, 10)])
+    b = bound_answers(run)
     run.cov["bound_model"] = {str(m): a.get("r") for m, a in zip((3, 6, 8, 10), b)}
     run.cov["skeleton_ok_evaluated"] = b[0].get("ok")
     run.cov["bound_constants"] = {"cutK": b[0].get("cutK"), "maxCnt": b[0].get("maxCnt")}
@@ -497,9 +524,9 @@ def check(run):
     # the pipeline
     acc = Acc()
     specs = make_specs(run, quick)
-    budget = 115 if quick else 1500
+    budget = 100 if quick else 1500
     t0 = time.time()
-    done = run_pipeline(run, specs, budget, acc)
+    done = run_pipeline(run, specs, budget, acc, b[0]["sameDepth"])
     run.cov["pipeline_runs_planned"] = len(specs)
     run.cov["pipeline_runs_done"] = done
     run.cov["pipeline_wall_s"] = round(time.time() - t0, 1)
@@ -562,6 +589,7 @@ def replay(run, rp):
         spec = make_spec(s["lang"], s["seed"], s["switches"], s["max_depth"], 600, s.get("erasure_options"))
         acc = Acc()
         rqs, owners = [], []
+        preload(bound_answers(run)[0]["sameDepth"])
         r = pipeline.run_one(spec)
         judge_result(run, r, acc, rqs, owners)
         judge_driver(run, acc, rqs, owners)
